@@ -1,7 +1,7 @@
 #!/bin/bash
-# usage: round2.sh Cxx  -- confirm and try both round-2 changes of a property (worktrees under /tmp/wt2)
+# usage: [WTROOT=/tmp/wt3] round2.sh Cxx  -- confirm and try both changes of a property of a later round (worktrees under $WTROOT)
 P=$1
-export WTROOT=/tmp/wt2
+export WTROOT=${WTROOT:-/tmp/wt2}
 for X in A B; do
   if [ -f $WTROOT/$P/_out/$X/patch.diff ]; then
     echo "##### $P $X"
